@@ -82,6 +82,24 @@ def _returned_set(ctx: Ctx, c: Collector, qn: str) -> None:
                     got_all += [(repr(e.term[2][0]), repr(_drop_idempotent(tuple(e.guards[d0:]), e.term[2][0])), repr(tuple(e.iters))) for e in adds]
                     d = d0
                     continue
+        # the keys of a counting table: `set(counts)` where every connection does `counts[dest] = ...` / `+= 1`
+        tab = None
+        if rv[0] == "call" and rv[1] in (T.glob("set"), T.glob("frozenset"), T.glob("list")) and len(rv[2]) == 1 and not rv[3]:
+            tab = rv[2][0]
+            if tab[0] == "call" and tab[1][0] == "attr" and tab[1][2] == "keys" and not tab[2]:
+                tab = tab[1][1]
+        if tab is not None and tab[0] == "var":
+            init = [b for b in s.of_kind("bind") if b.term[1] == tab]
+            empty_tabs = (("dict", ()), call(T.glob("dict")), call(T.glob("collections.Counter")), call(T.glob("collections.defaultdict"), T.glob("int")))
+            if len(init) == 1 and T.strip(init[0].term[2]) in empty_tabs:
+                d0 = len(init[0].guards)
+                puts = [e for e in s.of_kind("store") if e.term[1][0] == "idx" and e.term[1][1] == tab and e.idx < r.idx]
+                other = [e for e in s.events if (e.kind == "del" and T.contains((e.term,), tab)) or
+                         (e.kind == "call" and e.term[1][0] == "attr" and e.term[1][1] == tab and e.term[1][2] in ("pop", "popitem", "clear", "update", "setdefault", "subtract"))]
+                if puts and not other:
+                    got_all += [(repr(e.term[1][2]), repr(_drop_idempotent(tuple(e.guards[d0:]), e.term[1][2])), repr(tuple(e.iters))) for e in puts]
+                    d = d0
+                    continue
         if rv[0] != "bag":
             bad_shape = True
             pr.append(f"the returned value {T.show(rv)[:80]} is not the set that is filled next to the connect calls: "
@@ -211,6 +229,32 @@ def _chunking(ctx: Ctx, c: Collector) -> None:
                 elif not stride_ok:
                     pr.append(f"the position advances by {T.show(steps[-1].term[2])} but one round connects len(dest_set) sources: sources are skipped or connected twice")
                 if e.guards != tuple(g for g in e.guards if T.guard_term(g) == cond):
+                    pr.append("connections are conditional")
+        elif len(its) == 2 and T.strip(its[0][2])[0] == "call" and T.strip(its[0][2])[1] == T.glob("range") and its[0][1][0] == "var":
+            # for pos in range(0, len(src), len(window)): for src, dest in zip(src[pos : pos + len(window)], window): ...
+            rg = T.strip(its[0][2])
+            pos = its[0][1]
+            z = T.strip(its[1][2])
+            ok = z[0] == "call" and z[1] == T.glob("zip") and len(z[2]) == 2 and z[2][0][0] == "idx" and z[2][0][1] == srcs and z[2][0][2][0] == "slice" and len(rg[2]) == 3 and not rg[3]
+            if not ok:
+                unk = "chunking idiom not recognised"
+            else:
+                window = z[2][1]
+                lo, hi = z[2][0][2][1], z[2][0][2][2]
+                wlen = call(T.glob("len"), window)
+                if lo != pos:
+                    pr.append(f"the source window starts at {T.show(lo)[:40]}, not at the round's position")
+                if hi != T.NONE and unalias(hi, s, fi) not in (("op", "+", pos, wlen), ("op", "+", wlen, pos)):
+                    pr.append(f"the source window is cut at {T.show(hi)[:40]}, not after one round of len(dest_set) sources")
+                if rg[2][0] != T.const(0):
+                    pr.append("the position does not start at 0: the first sources are never connected")
+                if rg[2][1] != call(T.glob("len"), srcs):
+                    pr.append(f"the rounds stop at {T.show(rg[2][1])[:40]} instead of len(src_set)")
+                if unalias(rg[2][2], s, fi) != wlen:
+                    pr.append(f"the position advances by {T.show(rg[2][2])} but one round connects len(dest_set) sources: sources are skipped or connected twice")
+                if its[1][1][0] != "tuple" or e.term[2][:2] != its[1][1][1]:
+                    pr.append("connect is not called with the zipped (source, destination) pair")
+                if e.guards:
                     pr.append("connections are conditional")
         else:
             unk = "chunking idiom not recognised"
@@ -390,8 +434,8 @@ def _entity_identity(ctx: Ctx, c: Collector) -> None:
                 if is_cls(typer._type_of(sub[2], env), ENTITY):
                     uses.append((fi, e, T.show(sub)))
     c.info["entity_equality_uses"] = len(uses)
-    if len(uses) < 3:
-        raise AnalysisError(f"R24: only {len(uses)} equality-based uses of Entity values found in the helpers (set add, dict count, list remove confirmed by hand)")
+    if len(uses) < 2:
+        raise AnalysisError(f"R24: only {len(uses)} equality-based uses of Entity values found in the helpers (dict count, list remove, set add confirmed by hand; two of them are needed)")
     ci = prog.cls(ENTITY)
     fid = prog.find_method(ENTITY, "full_id")
     unique = set()
